@@ -470,7 +470,13 @@ Mon_C12(hp, hn, rp, r) ==
 (***************************************************************************)
 Mon_C30(r) ==
   LET oe == Evs(r, "Outstanding")
-  IN UNION {{V("C30", "AnsweredByDeadline", r, "other", ToString(<<oe[j].ops[k].id, oe[j].ops[k].kind, oe[j].ops[k].nodeRole>>)) :
+      \* a write that is committed on its leader and waits for a state machine that has not caught up with the commit
+      \* index (pending_write_apply) has no deadline of its own
+      stalled(o) == o.kind \in {"put", "del", "cas"} /\ o.nodeRole = "L" /\ o.node \in UpNodes(r)
+                    /\ ND(r, o.node).applied < ND(r, o.node).commit
+  IN UNION {{V("C30", "AnsweredByDeadline", r,
+               IF stalled(oe[j].ops[k]) THEN "committed-write-waiting-for-stalled-apply-has-no-deadline" ELSE "other",
+               ToString(<<oe[j].ops[k].id, oe[j].ops[k].kind, oe[j].ops[k].nodeRole>>)) :
                k \in 1..Len(oe[j].ops)} : j \in 1..Len(oe)}
 Mon_C32(hn, r) ==
   LET re == Evs(r, "Recovered")
